@@ -81,6 +81,12 @@ FINDINGS = {
     B(["RenameTable", "T2", "SUM"], ops=["rename_any"]),
     # the shadowing shows when the summary formula is next recomputed
     B(["RenameTable", "T1", "T9"], ops=["rename_any"])]},
+  "F-o.c06": {"profile": "c06", "cfg": {"sched_seed": 2}, "events": [
+    OPEN, B(["AddTable", "T1", [col("a", "Int")]], ["BulkAddRecord", "T1", [None, None], {"a": [1, 2]}]),
+    B(["AddColumn", "T1", "f", {"type": "Any", "isFormula": True, "formula": "($a or 0) + 1"}]),
+    B(["AddColumn", "T1", "g", {"type": "Any", "isFormula": True, "formula": "IFERROR($f, -1)"}]),
+    B(["ModifyColumn", "T1", "f", {"formula": "($g or 0) + ($a or 0)"}]),
+    B(["UpdateRecord", "T1", 1, {"a": 5}])]},
   "F-n.c16": {"profile": "c16", "cfg": {}, "events": [
     OPEN, B(["AddTable", "T1", [col("c1", "Int")]], ["BulkAddRecord", "T1", [None] * 2, {"c1": [1, 2]}]),
     # (in the renamed table itself: elsewhere the cell keeps its stale NameError, finding F-b of C05)
